@@ -352,7 +352,9 @@ ABSL_ATTRIBUTE_NOINLINE bool FutureContext<T, M>::wait_for_slow(
     return false;
   }
   int64_t until_ns = static_cast<int64_t>(spec.tv_sec) * (1000 * 1000 * 1000);
-  until_ns += spec.tv_nsec + timeout_ns;
+  until_ns += spec.tv_nsec;
+  // now + timeout may exceed the range of int64_t, saturate instead of overflow
+  until_ns = timeout_ns > INT64_MAX - until_ns ? INT64_MAX : until_ns + timeout_ns;
 
   BABYLON_VERIF_POINT("fut:before_waiter_register");
   auto value = _futex.value().fetch_add(1, ::std::memory_order_acquire) + 1;
